@@ -205,6 +205,8 @@ class ClosAdapter(Adapter):
             u = np.asarray(C.potential, dtype=float)
             lo = np.where(u < 1e5, u - 0.45, -np.inf)
             gamma = np.maximum(gamma, lo)
+        if self.rng('layout', l['gamma'], w['kind']).random() < 0.35:
+            gamma = np.repeat(gamma, 2)[::2]          # the same numbers as a non-contiguous view (every second entry of a longer array)
         keep = (r.tobytes(), gamma.tobytes(), None if C.potential is None else np.asarray(C.potential).tobytes())
         try:
             with np.errstate(all='ignore'):
